@@ -51,6 +51,22 @@ class P(framework.Prop):
         for at, o, p in itertools.product(ATOMS, INFIX, POSTFIX):
             exprs.append("%s %s b%s" % (at, o, p))
             exprs.append("b%s %s %s" % (p, o, at))
+        # what follows a projection extends its right-hand side: chains of three postfix forms (exhaustive) and of four to five (sampled)
+        for p1, p2, p3 in itertools.product(POSTFIX, POSTFIX, POSTFIX):
+            exprs.append("a%s%s%s" % (p1, p2, p3))
+        quads = list(itertools.product(POSTFIX, POSTFIX, POSTFIX, POSTFIX))
+        for q in (rng.sample(quads, 2500) if tier == "quick" else quads):
+            exprs.append("a" + "".join(q))
+            if rng.random() < 0.3:
+                exprs.append("a" + "".join(q) + rng.choice(POSTFIX) + " " + rng.choice(INFIX) + " b" + rng.choice(POSTFIX))
+        for at, p1, p2 in itertools.product(ATOMS, POSTFIX, POSTFIX):
+            exprs.append("%s%s%s" % (at, p1, p2))
+            exprs.append("!%s%s%s | &%s%s" % (at, p1, p2, at, p1) if rng.random() < 0.1 else "%s%s%s[?c]%s" % (at, p1, p2, rng.choice(POSTFIX)))
+        for pre in ["&", "f(&", "sort_by(a, &", "[&"]:
+            close = {"&": "", "f(&": ")", "sort_by(a, &": ")", "[&": "]"}[pre]
+            for o in INFIX:
+                exprs.append("%sa %s b%s" % (pre, o, close))
+                exprs.append("%sa%s %s b%s" % (pre, rng.choice(POSTFIX), o, close))
         triples = list(itertools.product(INFIX, INFIX, INFIX))
         if tier == "quick":
             triples = rng.sample(triples, 250)
@@ -63,7 +79,7 @@ class P(framework.Prop):
             parts = []
             for i in range(n):
                 a = rng.choice(PREFIX) + rng.choice(ATOMS)
-                for _ in range(rng.choice([0, 0, 1, 2])):
+                for _ in range(rng.choice([0, 0, 1, 2, 3, 4])):
                     a += rng.choice(POSTFIX)
                 parts.append(a)
                 if i < n - 1:
